@@ -268,4 +268,289 @@ Section LIFT.
         * apply (sf_surv _ _ _ _ _ F).
         * intros v p n op Hin _. destruct (PreNoIns _ Hin) as [v1 E1]. discriminate.
   Qed.
+
+  (* ---------- paths of different tier instances never meet ---------- *)
+  Lemma comparable : forall (a b r1 r2 : list N), a ++ r1 = b ++ r2 -> is_prefix a b \/ is_prefix b a.
+  Proof.
+    induction a as [|x a IH]; intros b r1 r2 E; [left; exists b; reflexivity|].
+    destruct b as [|y b]; [right; exists (x :: a); reflexivity|]. cbn in E. inversion E; subst.
+    destruct (IH b r1 r2 H2) as [[c Ec]|[c Ec]]; [left|right]; exists c; cbn; congruence.
+  Qed.
+
+  Lemma same_instance : forall (U : list N -> Prop) P x y p, pfree U -> U x -> U y ->
+    path_prefix (P ++ x ++ TIER_SEP) p -> path_prefix (P ++ y ++ TIER_SEP) p -> x = y.
+  Proof.
+    intros U P x y p PF Ux Uy [c1 E1] [c2 E2]. rewrite E1 in E2. rewrite <- !app_assoc in E2. apply app_inv_head in E2.
+    destruct (comparable _ _ _ _ E2) as [Pr|Pr]; [apply (PF x y Ux Uy Pr)|symmetry; apply (PF y x Uy Ux Pr)].
+  Qed.
+
+  Lemma struct_vs_lower : forall (U : list N -> Prop) P x q, pfree U -> U x ->
+    (q = [] \/ exists y, U y /\ is_prefix q y) -> ~ path_prefix (P ++ x ++ TIER_SEP) (P ++ q).
+  Proof.
+    intros U P x q PF Ux Hq [c E]. rewrite <- !app_assoc in E. apply app_inv_head in E.
+    destruct Hq as [Eq|(y & Uy & [e Ey])].
+    - subst q. destruct x; discriminate.
+    - assert (Pxy : is_prefix x y) by (exists (TIER_SEP ++ c ++ e); rewrite Ey, E, <- !app_assoc; reflexivity).
+      pose proof (PF x y Ux Uy Pxy) as Exy.
+      assert (L : length y = (length x + 2 + length c + length e)%nat) by (rewrite Ey, E, !app_length; cbn; lia).
+      rewrite <- Exy in L. lia.
+  Qed.
+
+  (* the path of every node of a tier tree is a prefix of one of its keys *)
+  Lemma tkeys_prefix_of_key : forall A n lh path v (t : node A) k,
+    good H A n lh t -> In k (tkeys A n path v t) ->
+    exists y d r, lookup A n t y = Some d /\ snd k = path ++ r /\ is_prefix r y.
+  Proof.
+    intros A. induction n as [|n IH]; intros lh path v t k G Hin.
+    - destruct t as [|s vh p a|cs]; cbn [good] in G; try contradiction. cbn in Hin. destruct Hin as [E|[]]. subst k.
+      exists s, (vh, p, a), []. cbn. rewrite leqb_refl, app_nil_r. repeat split. exists s. reflexivity.
+    - destruct (good_has_leaf H A (S n) lh t G) as (y0 & d0 & E0).
+      destruct (tkeys_cons A (S n) path v t) as [rr Err]. rewrite Err in Hin. destruct Hin as [E|Hin].
+      + subst k. exists y0, d0, []. cbn [snd]. rewrite app_nil_r. repeat split; [exact E0|]. exists y0. reflexivity.
+      + destruct t as [|s vh p a|cs]; [cbn in G; contradiction|cbn in Err; inversion Err; subst rr; contradiction|].
+        apply good_internal in G. destruct G as (G1 & G2 & _). cbn in Err. inversion Err as [Er]. rewrite <- Er in Hin.
+        apply in_flat_map in Hin. destruct Hin as (c & Hc & Hk). rewrite Forall_forall in G2. destruct (G2 c Hc) as (_ & C2 & _).
+        destruct (IH _ _ _ _ _ C2 Hk) as (y & d & r & El & Es & Ep).
+        exists (c_nib c :: y), d, (c_nib c :: r). split; [|split].
+        * rewrite lookup_internal, (cs_find_in_sorted A cs c G1 Hc). exact El.
+        * rewrite Es, <- app_assoc. reflexivity.
+        * destruct Ep as [e Ee]. exists e. cbn. congruence.
+  Qed.
+
+  Lemma kills_below : forall Q ver op k, op_ok Q ver op -> kills op k -> path_prefix Q (snd k).
+  Proof.
+    intros Q ver op k O K. destruct op as [v p n|[v p|v p]]; cbn in O, K; [contradiction| |].
+    - subst k. apply O.
+    - eapply path_prefix_trans; [exact O|exact K].
+  Qed.
+  Lemma op_ok_weaken : forall P Q ver op, path_prefix P Q -> op_ok Q ver op -> op_ok P ver op.
+  Proof.
+    intros P Q ver op PQ O. destruct op as [v p n|[v p|v p]]; cbn in *.
+    - split; [apply O|eapply path_prefix_trans; [exact PQ|apply O]].
+    - split; [apply O|eapply path_prefix_trans; [exact PQ|apply O]].
+    - eapply path_prefix_trans; [exact PQ|exact O].
+  Qed.
+
+  (* ============================ a tier above lower tier instances ============================ *)
+  Lemma seqM_inv : forall {X Y} (F : X -> res Y) xs l, seqM F xs = Ok l -> Forall2 (fun x y => F x = Ok y) xs l.
+  Proof.
+    intros X Y F xs. induction xs as [|x xs IH]; intros l E; cbn [seqM] in E.
+    - inversion E. constructor.
+    - destruct (F x) as [y| |] eqn:Ex; try discriminate. destruct (seqM F xs) as [ys| |] eqn:Es; try discriminate.
+      inversion E; subst. constructor; [exact Ex|apply IH; reflexivity].
+  Qed.
+
+  Section UPLIFT.
+    Variable A X : Type.
+    Variable U : list N -> Prop.
+    Hypothesis PFU : pfree U.
+    Hypothesis U0 : ~ U [].
+    Variable lower : N -> list N -> option (N * A) -> X -> res (option (list N) * A * list store_op).
+    Variable okX : X -> Prop.
+    Variable LowOK : option (N * A) -> Prop.
+    (* keys the lower instance at prefix Q with root (version pv, tree a) refers to *)
+    Variable RL : list N -> N -> A -> list skey.
+    Hypothesis RL_below : forall Q pv a k, In k (RL Q pv a) -> path_prefix Q (snd k).
+    Definition RLo (Q : list N) (sroot : option (N * A)) : list skey :=
+      match sroot with Some (pv, a) => RL Q pv a | None => [] end.
+    Variable P : list N.      (* prefix of this tier instance *)
+    Hypothesis lower_facts : forall ver key sroot x h r ops v0,
+      okX x -> LowOK sroot -> lower ver key sroot x = Ok (h, r, ops) ->
+      vers_le v0 (RLo (P ++ key ++ TIER_SEP) sroot) -> v0 < ver ->
+      step_facts (P ++ key ++ TIER_SEP) ver ops (RLo (P ++ key ++ TIER_SEP) sroot) (RL (P ++ key ++ TIER_SEP) ver r).
+
+    Notation nodeA := (node A).
+    Definition leaf_reach (t : nodeA) : list skey :=
+      flat_map (fun kd => RL (P ++ fst kd ++ TIER_SEP) (snd (fst (snd kd))) (snd (snd kd))) (leaves A fuel t).
+    Definition Rup (root : option (N * nodeA)) : list skey :=
+      Rs P root ++ match root with Some (_, t) => leaf_reach t | None => [] end.
+
+    Lemma leaf_reach_in : forall t k, In k (leaf_reach t) <->
+      exists y vh pv a, In (y, (vh, pv, a)) (leaves A fuel t) /\ In k (RL (P ++ y ++ TIER_SEP) pv a).
+    Proof.
+      intros t k. unfold leaf_reach. rewrite in_flat_map. split.
+      - intros ([y [[vh pv] a]] & Hin & Hk). exists y, vh, pv, a. split; [exact Hin|exact Hk].
+      - intros (y & vh & pv & a & Hin & Hk). exists (y, (vh, pv, a)). split; [exact Hin|exact Hk].
+    Qed.
+
+    Lemma ups_last_rel : forall (Rxy : list N * X -> kv A * list store_op -> Prop) xs l,
+      Forall2 Rxy xs l -> (forall x y, Rxy x y -> fst (fst y) = fst x) -> NoDup (map fst xs) ->
+      forall k, match xfind X k xs with
+                | Some x => exists y, In x xs /\ In y l /\ Rxy x y /\ ups_last A k (map fst l) = Some (snd (fst y))
+                | None => ups_last A k (map fst l) = None
+                end.
+    Proof.
+      intros Rxy xs l F Hk. induction F as [|x y xs l Qxy F IH]; intros ND k; [reflexivity|].
+      inversion ND as [|? ? Hn ND']; subst. specialize (IH ND' k).
+      cbn [xfind find map]. pose proof (Hk x y Qxy) as Ek. destruct (fst y) as [ky uy] eqn:Efy. cbn [fst] in Ek. subst ky.
+      cbn [ups_last]. destruct (leqb k (fst x)) eqn:E.
+      - apply leqb_eq in E. subst k. rewrite (xfind_none X (fst x) xs Hn) in IH. rewrite IH.
+        exists y. split; [left; reflexivity|]. split; [left; reflexivity|]. split; [exact Qxy|]. rewrite Efy. reflexivity.
+      - fold (xfind X k xs). destruct (xfind X k xs) as [x'|].
+        + destruct IH as (y' & Hx' & Hy' & Qy' & E'). exists y'. split; [right; exact Hx'|]. split; [right; exact Hy'|]. split; [exact Qy'|]. rewrite E'. reflexivity.
+        + rewrite IH. reflexivity.
+    Qed.
+
+    Theorem upper_facts : forall ver root xs h r ops v0,
+      xs_ok fuel X okX U xs -> state_ok H A U fuel root ->
+      (forall y vh pv a, root_sem A fuel root y = Some (vh, pv, a) -> LowOK (Some (pv, a))) -> LowOK None ->
+      upper_put H fuel A X lower ver P root xs = Ok (h, r, ops) ->
+      vers_le v0 (Rup root) -> v0 < ver ->
+      step_facts P ver ops (Rup root) (Rup (Some (ver, r))).
+    Proof.
+      intros ver root xs h r ops v0 [NDx OKx] SO LO LO0 E VR Lt.
+      unfold upper_put in E.
+      destruct (seqM (lower_call fuel A X lower ver root) xs) as [l| |] eqn:El; try discriminate.
+      destruct (tier_put H A fuel root ver (map fst l)) as [[[h1 r1] lg]| |] eqn:ET; try discriminate.
+      inversion E as [[Eh Er Eo]]. clear E. try subst r1. try subst h1.
+      apply seqM_inv in El.
+      (* what every lower call did *)
+      set (sroot_of := fun x : list N * X =>
+             match root with
+             | Some (_, t) => match lookup A fuel t (fst x) with Some (_, pv, st) => Some (pv, st) | None => None end
+             | None => None end).
+      set (Qp := fun key : list N => P ++ key ++ TIER_SEP).
+      assert (OldLeaf : forall x pv a, sroot_of x = Some (pv, a) -> exists vh, root_sem A fuel root (fst x) = Some (vh, pv, a)).
+      { intros x pv a Es. unfold sroot_of in Es. destruct root as [[v0' t]|]; [|discriminate]. cbn [root_sem].
+        destruct (lookup A fuel t (fst x)) as [[[vh pv'] a']|]; [|discriminate]. inversion Es; subst. exists vh. reflexivity. }
+      assert (OldSub : forall x k, In k (RLo (Qp (fst x)) (sroot_of x)) -> In k (Rup root)).
+      { intros x k Hk. destruct (sroot_of x) as [[pv a]|] eqn:Es; [|destruct Hk]. cbn [RLo] in Hk.
+        destruct (OldLeaf x pv a Es) as [vh El0]. destruct root as [[v0' t]|]; [|discriminate]. cbn [root_sem] in El0.
+        unfold Rup. apply in_or_app. right. apply leaf_reach_in. exists (fst x), vh, pv, a. split; [|exact Hk].
+        destruct (SO v0' t eq_refl) as [[En|G] _]; [subst t; rewrite lookup_null in El0; discriminate|].
+        apply (leaves_lookup H A fuel _ t G). exact El0. }
+      set (Lx := fun (x : list N * X) (y : kv A * list store_op) =>
+             lower_call fuel A X lower ver root x = Ok y /\
+             exists h0 r0, fst y = (fst x, match h0 with Some h' => Some (h', ver, r0) | None => None end) /\
+                           step_facts (Qp (fst x)) ver (snd y) (RLo (Qp (fst x)) (sroot_of x)) (RL (Qp (fst x)) ver r0)).
+      assert (FL : Forall2 Lx xs l).
+      { clear - El OKx lower_facts LO LO0 OldLeaf OldSub VR Lt. revert OKx OldSub. induction El as [|x y xs l Exy F IH]; intros OKx OldSub; [constructor|].
+        constructor; [|apply IH; [intros x' Hx'; apply OKx; right; exact Hx'|exact OldSub]].
+        split; [exact Exy|].
+        unfold lower_call in Exy. cbv zeta in Exy. fold (sroot_of x) in Exy.
+        destruct (lower ver (fst x) (sroot_of x) (snd x)) as [[[h0 r0] ops0]| |] eqn:E0; try discriminate.
+        inversion Exy; subst y. exists h0, r0. split; [reflexivity|]. cbn [snd].
+        apply (lower_facts ver (fst x) (sroot_of x) (snd x) h0 r0 ops0 v0); try assumption.
+        - apply (OKx x (or_introl eq_refl)).
+        - destruct (sroot_of x) as [[pv a]|] eqn:Es; [|exact LO0]. destruct (OldLeaf x pv a Es) as [vh E1]. apply (LO _ _ _ _ E1).
+        - intros k Hk. apply VR. apply (OldSub x k Hk). }
+      assert (Lfst : forall x y, Lx x y -> fst (fst y) = fst x) by (intros x y (_ & h0 & r0 & Ey & _); rewrite Ey; reflexivity).
+      (* this tier *)
+      assert (UO : ups_ok A U fuel (map fst l)).
+      { intros u Hu. apply in_map_iff in Hu. destruct Hu as (y & Ey & Hy). subst u.
+        destruct (Forall2_in_r _ _ _ FL y Hy) as (x & Hx & Lxy). rewrite (Lfst x y Lxy). apply (OKx x Hx). }
+      destruct (tier_step H A fuel root ver (map fst l) U Hfuel PFU U0 UO SO) as (hh & rr & lg' & E' & S1 & S2 & _).
+      rewrite ET in E'. inversion E'; subst hh rr lg'. clear E'.
+      assert (VRs : vers_le v0 (Rs P root)) by (intros k Hk; apply VR; unfold Rup; apply in_or_app; left; exact Hk).
+      destruct (tier_facts A U P root ver (map fst l) h r lg v0 PFU U0 UO SO ET VRs Lt) as [FT StaleOld].
+      (* every lower operation lies below its own instance prefix *)
+      assert (LowOps : forall op, In op (flat_map snd l) -> exists x y, In x xs /\ In y l /\ Lx x y /\ In op (snd y)).
+      { intros op Hop. apply in_flat_map in Hop. destruct Hop as (y & Hy & Hop).
+        destruct (Forall2_in_r _ _ _ FL y Hy) as (x & Hx & Lxy). exists x, y. split; [exact Hx|split; [exact Hy|split; [exact Lxy|exact Hop]]]. }
+      (* structure keys of the old tree are not below any lower instance of an updated key *)
+      assert (StructFree : forall k x, In k (Rs P root) -> In x xs -> ~ path_prefix (Qp (fst x)) (snd k)).
+      { intros k x Hk Hx. unfold Rs in Hk. apply in_map_iff in Hk. destruct Hk as (k' & Ek & Hk'). subst k. cbn [gkey snd].
+        apply (struct_vs_lower U P (fst x) (snd k') PFU); [apply (OKx x Hx)|].
+        destruct root as [[v0' t]|]; [|destruct Hk']. cbn [reach] in Hk'.
+        destruct (SO v0' t eq_refl) as [[En|G] TO].
+        - subst t. left. destruct fuel; cbn in Hk'; destruct Hk' as [Ek|[]]; subst k'; reflexivity.
+        - destruct (tkeys_prefix_of_key A fuel _ [] v0' t k' G Hk') as (y & d & rr & Ely & Es & Ep). cbn [app] in Es. rewrite Es.
+          right. exists y. split; [apply (TO y d Ely)|exact Ep]. }
+      (* a key below the instance of leaf y is not killed by this tier's own operations nor by the
+         lower operations of another key *)
+      assert (OwnFree : forall k y op, U y -> path_prefix (Qp y) (snd k) -> In op (ops_of_log P ver lg) -> ~ kills op k).
+      { intros k y op Uy Bk Hop Kop.
+        destruct (ops_of_log_cases P ver lg op Hop) as [(p & n & Eop & _)|(v & p & Eop & Hst)]; subst op; cbn in Kop; [exact Kop|].
+        assert (Hin : In (gkey P (v, p)) (Rs P root)) by (apply in_map; apply StaleOld; exact Hst).
+        subst k. cbn [snd] in Bk.
+        unfold Rs in Hin. apply in_map_iff in Hin. destruct Hin as (k' & Ek & Hk'). apply gkey_inj in Ek. subst k'.
+        revert Bk. apply (struct_vs_lower U P y p PFU Uy).
+        destruct root as [[v0' t]|]; [|destruct Hk']. cbn [reach] in Hk'.
+        destruct (SO v0' t eq_refl) as [[En|G] TO].
+        - subst t. left. destruct fuel; cbn in Hk'; destruct Hk' as [Ek|[]]; inversion Ek; reflexivity.
+        - destruct (tkeys_prefix_of_key A fuel _ [] v0' t (v, p) G Hk') as (y' & d & rr & Ely & Es & Ep). cbn [app snd] in Es. rewrite Es.
+          right. exists y'. split; [apply (TO y' d Ely)|exact Ep]. }
+      assert (OtherFree : forall k y x yy op, U y -> path_prefix (Qp y) (snd k) -> In x xs -> Lx x yy -> In op (snd yy) ->
+                kills op k -> fst x = y).
+      { intros k y x yy op Uy Bk Hx (_ & h0 & r0 & _ & F0) Hop Kop.
+        pose proof (kills_below _ _ _ _ (sf_ops _ _ _ _ _ F0 op Hop) Kop) as Bx.
+        apply (same_instance U P (fst x) y (snd k) PFU); [apply (OKx x Hx)|exact Uy|exact Bx|exact Bk]. }
+      subst ops. constructor.
+      - (* reach *)
+        intros k Hk. unfold Rup in Hk. apply in_app_or in Hk. destruct Hk as [Hk|Hk].
+        + (* a structure node of this tier *)
+          destruct (sf_reach _ _ _ _ _ FT k Hk) as [Hi|[Ho NK]].
+          * left. rewrite ins_keys_app. apply in_or_app. right. exact Hi.
+          * right. split; [unfold Rup; apply in_or_app; left; exact Ho|].
+            intros op Hop. apply in_app_or in Hop. destruct Hop as [Hop|Hop]; [|apply NK; exact Hop].
+            intro Kop. destruct (LowOps op Hop) as (x & y & Hx & Hy & (_ & h0 & r0 & Ey & F0) & Hop').
+            apply (StructFree k x Ho Hx). apply (kills_below _ _ _ _ (sf_ops _ _ _ _ _ F0 op Hop') Kop).
+        + (* a node of a lower instance hanging under leaf y of the new tree *)
+          apply leaf_reach_in in Hk. destruct Hk as (y & vh & pv & a & Hleaf & Hk).
+          assert (Gr : good H A fuel (lh_root H) r).
+          { destruct (S1 ver r eq_refl) as [[En|G] _]; [|exact G]. subst r. destruct fuel; destruct Hleaf. }
+          apply (leaves_lookup H A fuel _ r Gr) in Hleaf. rewrite S2 in Hleaf. unfold apply_batch in Hleaf.
+          assert (Uy : U y).
+          { destruct (S1 ver r eq_refl) as [_ TO]. apply (TO y (vh, pv, a)). rewrite S2. exact Hleaf. }
+          pose proof (RL_below _ _ _ _ Hk) as Bk.
+          pose proof (ups_last_rel Lx xs l FL Lfst NDx y) as UL.
+          destruct (xfind X y xs) as [x|] eqn:Ef.
+          * destruct UL as (yy & Hx & Hyy & Lxy & EL). rewrite EL in Hleaf.
+            assert (Ey : y = fst x).
+            { unfold xfind in Ef. apply find_some in Ef. destruct Ef as [_ Ef]. apply leqb_eq in Ef. exact Ef. }
+            destruct Lxy as (Ecall & h0 & r0 & Efy & F0). rewrite Efy in Hleaf. cbn [snd] in Hleaf.
+            destruct h0 as [h'|]; [|discriminate]. inversion Hleaf; subst vh pv a. subst y.
+            destruct (sf_reach _ _ _ _ _ F0 k Hk) as [Hi|[Ho NK]].
+            -- left. rewrite ins_keys_app. apply in_or_app. left. unfold ins_keys in *. apply in_flat_map in Hi. destruct Hi as (op & Hop & Hin).
+               apply in_flat_map. exists op. split; [apply in_flat_map; exists yy; split; assumption|exact Hin].
+            -- right. split; [apply (OldSub x k Ho)|].
+               intros op Hop. apply in_app_or in Hop. destruct Hop as [Hop|Hop].
+               ++ intro Kop. destruct (LowOps op Hop) as (x2 & y2 & Hx2 & Hy2 & Lx2 & Hop2).
+                  pose proof (OtherFree k (fst x) x2 y2 op Uy Bk Hx2 Lx2 Hop2 Kop) as Exx.
+                  (* same key => same list element (NoDup) => same lower result *)
+                  assert (x2 = x).
+                  { clear - NDx Hx Hx2 Exx. induction xs as [|z zs IHz]; [destruct Hx|]. cbn in NDx. inversion NDx; subst.
+                    destruct Hx as [Ez|Hx]; destruct Hx2 as [Ez2|Hx2].
+                    - congruence.
+                    - subst z. exfalso. apply H1. rewrite <- Exx. apply in_map. exact Hx2.
+                    - subst z. exfalso. apply H1. rewrite Exx. apply in_map. exact Hx.
+                    - apply IHz; assumption. }
+                  subst x2.
+                  assert (y2 = yy) by (destruct Lx2 as [Ec2 _]; congruence).
+                  subst y2. apply (NK op Hop2 Kop).
+               ++ apply (OwnFree k (fst x) op Uy Bk Hop).
+          * (* the leaf was not touched *)
+            rewrite UL in Hleaf. right. split.
+            -- unfold Rup. apply in_or_app. right. destruct root as [[v0' t]|]; [|discriminate]. cbn [root_sem] in Hleaf.
+               apply leaf_reach_in. exists y, vh, pv, a. split; [|exact Hk].
+               destruct (SO v0' t eq_refl) as [[En|G] _]; [subst t; rewrite lookup_null in Hleaf; discriminate|].
+               apply (leaves_lookup H A fuel _ t G). exact Hleaf.
+            -- intros op Hop. apply in_app_or in Hop. destruct Hop as [Hop|Hop]; [|apply (OwnFree k y op Uy Bk Hop)].
+               intro Kop. destruct (LowOps op Hop) as (x2 & y2 & Hx2 & Hy2 & Lx2 & Hop2).
+               pose proof (OtherFree k y x2 y2 op Uy Bk Hx2 Lx2 Hop2 Kop) as Exx.
+               assert (Hn : xfind X y xs <> None).
+               { unfold xfind. intro En. pose proof (find_none _ _ En x2 Hx2) as Fn. cbn in Fn. rewrite Exx, leqb_refl in Fn. discriminate. }
+               apply Hn. exact Ef.
+      - (* operations *)
+        intros op Hop. apply in_app_or in Hop. destruct Hop as [Hop|Hop]; [|apply (sf_ops _ _ _ _ _ FT op Hop)].
+        destruct (LowOps op Hop) as (x & y & Hx & Hy & (_ & h0 & r0 & Ey & F0) & Hop').
+        apply (op_ok_weaken P (Qp (fst x))); [unfold Qp; apply path_prefix_app|apply (sf_ops _ _ _ _ _ F0 op Hop')].
+      - (* inserted nodes survive *)
+        apply survives_app; [|apply (sf_surv _ _ _ _ _ FT)|].
+        + clear - FL NDx OKx PFU Lfst. revert NDx OKx. induction FL as [|x y xs l Lxy F IH]; intros NDx OKx; [intros o1 v p n o2 Eo; destruct o1; discriminate|].
+          cbn [flat_map]. inversion NDx as [|? ? Hn ND']; subst.
+          apply survives_app; [destruct Lxy as (_ & h0 & r0 & _ & F0); apply (sf_surv _ _ _ _ _ F0)|apply IH; [exact ND'|intros x' Hx'; apply OKx; right; exact Hx']|].
+          intros v p n op Hins Hop Kop. destruct Lxy as (_ & h0 & r0 & _ & F0).
+          pose proof (sf_ops _ _ _ _ _ F0 _ Hins) as Oi. cbn in Oi. destruct Oi as [_ Bi].
+          apply in_flat_map in Hop. destruct Hop as (y2 & Hy2 & Hop2). destruct (Forall2_in_r _ _ _ F y2 Hy2) as (x2 & Hx2 & (_ & h2 & r2 & _ & F2)).
+          pose proof (kills_below _ _ _ _ (sf_ops _ _ _ _ _ F2 op Hop2) Kop) as B2. cbn [snd] in B2.
+          apply Hn. assert (Efx : fst x2 = fst x); [|rewrite <- Efx; apply in_map; exact Hx2].
+          apply (same_instance U P (fst x2) (fst x) p PFU); [apply (OKx x2 (or_intror Hx2))|apply (OKx x (or_introl eq_refl))|exact B2|exact Bi].
+        + intros v p n op Hins Hop Kop.
+          destruct (LowOps _ Hins) as (x & y & Hx & Hy & (_ & h0 & r0 & Ey & F0) & Hop').
+          pose proof (sf_ops _ _ _ _ _ F0 _ Hop') as Oi. cbn in Oi. destruct Oi as [Ev _].
+          destruct (ops_of_log_cases P ver lg op Hop) as [(p' & n' & Eop & _)|(v' & p' & Eop & Hst)]; subst op; cbn in Kop; [exact Kop|].
+          pose proof (sf_ops _ _ _ _ _ FT _ Hop) as Os. cbn in Os. destruct Os as [Lv _]. inversion Kop. lia.
+    Qed.
+  End UPLIFT.
 End LIFT.
